@@ -92,7 +92,7 @@ func c01Case(w *rt.W, st *c01State, y int64, m, d int, slow bool) {
 		}
 	}
 	st.held = append(st.held[:0], outE, outB, mt)
-	st.heldWant = append(st.heldWant[:0], wantE, wantB, wantE)
+	st.heldWant = append(st.heldWant[:0], string(outE), string(outB), string(mt))
 	st.heldArgs = append(st.heldArgs[:0], [3]int64{y, int64(m), int64(d)}, [3]int64{y, int64(m), int64(d)}, [3]int64{y, int64(m), int64(d)})
 
 	if slow {
